@@ -264,6 +264,15 @@ class StmtMixin:
         return names
 
     # ------------------------------------------------------------------ loops
+    def _inv_or_false(self, inv, ctx):
+        """invariant formula; if the loop state no longer has the shape the invariant talks about (a local of another kind),
+        the invariant cannot hold as stated"""
+        try:
+            return inv(ctx)
+        except (AttributeError, TypeError, KeyError, IndexError) as e:
+            self.assumptions.add(f"loop invariant of {self.cur_contract.name if self.cur_contract else '?'} not applicable: {type(e).__name__}: {e}")
+            return z3.BoolVal(False)
+
     def _loop_spec(self, s):
         self.loop_ordinal_map = getattr(self, "loop_ordinal_map", {})
         ordn = self.loop_ordinals.get(id(s))
@@ -363,7 +372,7 @@ class StmtMixin:
         # 1. invariant on entry (k = 0)
         k0 = z3.IntVal(0)
         if inv is not None:
-            self.oblige(path, f"inv-entry:{tag}", inv(ctx_of(path, k0)), s)
+            self.oblige(path, f"inv-entry:{tag}", self._inv_or_false(inv, ctx_of(path, k0)), s)
         # 2. havoc
         p = path.clone()
         self.havoc_loop_targets(s, p, spec)
@@ -407,7 +416,7 @@ class StmtMixin:
                 for kind, p2, val in body_outs:
                     if kind in (NEXT, CONT):
                         if inv is not None:
-                            self.oblige(p2, f"inv-preserved:{tag}", inv(ctx_of(p2, k + 1)), s)
+                            self.oblige(p2, f"inv-preserved:{tag}", self._inv_or_false(inv, ctx_of(p2, k + 1)), s)
                         if inc is not None:
                             # progress measure: every completed iteration strictly advances it
                             self.oblige(p2, f"progress-increases:{tag}", inc(ctx_of(p2, k + 1)) > i0, s)
